@@ -21,8 +21,11 @@
 (*   lost    : bytes dropped by a reader-triggered entry.deduplicate() stay in the counters (DESIGN F8);         *)
 (*   strayed : a WriteMulti that captured c.store before a Snapshot swap stores into / refunds against the      *)
 (*             wrong counters (unreachable through Engine, which excludes writes during Cache.Snapshot).        *)
-(* Deliberately not modelled: the entry-level windows inside store.write / DeleteRange / Values (an entry       *)
-(* pointer held across another call's critical section, DESIGN F17) -- each of these three is one step here.    *)
+(*   glitched: store.write(k) is lookup (entry pointer) / entry.add; DeleteRange is, per key and under c.mu,     *)
+(*             e.size() / e.filter / count==0 ? remove : -, decreaseSize.  Writers do not take c.mu, so an add   *)
+(*             can fall between those steps: the bytes given back are computed from a stale size, and an add      *)
+(*             after the entry left the map lands in an orphan -- acknowledged values are lost (DESIGN F17 window). *)
+(* Deliberately not modelled: the entry pointers Values holds between its lookup and its copy.                   *)
 EXTENDS Integers, Sequences, FiniteSets, TLC
 
 CONSTANTS Keys,          \* subset of {"k1","k2","k3"}
@@ -47,11 +50,14 @@ VARIABLES ring,          \* [1..2 -> [Keys -> Seq(value)]]; <<>> = no entry
           amap,          \* contract: [1..2 -> [Keys -> [Times -> value | NoVal]]]
           lost,          \* ghost: [hot, snap] bytes dropped by reader dedup that are still inside size / snapshotSize
           strayed,       \* ghost: some write spanned a Snapshot swap
+          ent,           \* entry objects: [gen |-> [1..2 -> [Keys -> Nat]]  generation of the entry object mapped at (store, key),
+                         \*                 vt  |-> [1..2 -> [Keys -> type | "-"]]  its vtype, "-" = no entry in the map,
+                         \*                 glitched |-> ghost: a store.write raced with DeleteRange/reset on the same entry]
           cnt, nextId, hist   \* model-checking bookkeeping: budgets, value numbering, history
 
-core == <<ring, hotId, size, snapshotSize, snapObjSize, snapshotting, th, amap, lost, strayed>>
+core == <<ring, hotId, size, snapshotSize, snapObjSize, snapshotting, th, amap, lost, strayed, ent>>
 aux  == <<cnt, nextId, hist>>
-vars == <<ring, hotId, size, snapshotSize, snapObjSize, snapshotting, th, amap, lost, strayed, cnt, nextId, hist>>
+vars == <<ring, hotId, size, snapshotSize, snapObjSize, snapshotting, th, amap, lost, strayed, ent, cnt, nextId, hist>>
 
 snapId == 3 - hotId
 
@@ -104,7 +110,7 @@ Reported  == size + snapshotSize
 
 \* ------------------------------------------------------------------ threads
 Idle == [pc |-> "idle", op |-> "none", b |-> <<>>, ks |-> {}, k |-> "", lo |-> 0, hi |-> 0, full |-> FALSE, succ |-> FALSE,
-         seen |-> 0, cap |-> 0, todo |-> {}, added |-> 0, conf |-> {}, stored |-> {},
+         seen |-> 0, cap |-> 0, egen |-> 0, etype |-> "-", todo |-> {}, added |-> 0, conf |-> {}, stored |-> {},
          err |-> "", vals |-> <<>>, n |-> 0]
 AllIdle == \A t \in Threads : th[t].pc = "idle"
 CanStart(t) == th[t].pc = "idle" /\ (Sequential => AllIdle)
@@ -116,7 +122,7 @@ Pairs(vs) == [i \in 1..Len(vs) |-> <<vs[i].ts, vs[i].id>>]
 
 \* Every operation is: Start (records the call; purely thread-local), its internal steps (below, "...On(t, r)" takes the
 \* thread record explicitly so that model checking can fuse the local Start with the first shared step), Return.
-Rest0 == UNCHANGED <<ring, hotId, size, snapshotSize, snapObjSize, snapshotting, amap, lost, strayed>>
+Rest0 == UNCHANGED <<ring, hotId, size, snapshotSize, snapObjSize, snapshotting, amap, lost, strayed, ent>>
 FirstPc(op) == CASE op = "write" -> (IF SplitLoads THEN "w_load1" ELSE "w_check")
                  [] op = "snapshot" -> "s_snap" [] op = "clear" -> "c_reset" [] op = "delete" -> "d_del"
                  [] op = "values" -> "r_dedup" [] op = "size" -> (IF SplitLoads THEN "z_load1" ELSE "z_load2")
@@ -126,8 +132,16 @@ NewClear(success) == [New("clear") EXCEPT !.succ = success]
 NewDelete(ks, lo, hi, full) == [New("delete") EXCEPT !.ks = ks, !.lo = lo, !.hi = hi, !.full = full]
 NewRead(k) == [New("values") EXCEPT !.k = k]
 
-MidWrite == \E u \in Threads : th[u].pc \in {"w_reserve", "w_store"}
-SnapLocked == \E u \in Threads : th[u].pc = "s_zero"     \* some Snapshot() is inside its critical section (holds c.mu)
+MidWrite == \E u \in Threads : th[u].pc \in {"w_reserve", "w_store", "w_add", "w_slow"}
+\* some Snapshot() or DeleteRange() is inside its critical section (holds c.mu exclusively)
+SnapLocked == \E u \in Threads : th[u].pc \in {"s_zero", "d_next", "d_filter", "d_check"}
+Present(s, k) == ent.vt[s][k] # "-"
+\* a DeleteRange is between e.size() and its decreaseSize for key k of the hot store
+DelInProgress(s, k) == s = hotId /\ \E u \in Threads : th[u].pc \in {"d_filter", "d_check"} /\ th[u].k = k
+Ent0 == [gen |-> [s \in {1, 2} |-> [k \in Keys |-> 0]], vt |-> [s \in {1, 2} |-> [k \in Keys |-> "-"]], glitched |-> FALSE]
+DropEntry(e, s, k) == [e EXCEPT !.gen[s][k] = @ + 1, !.vt[s][k] = "-"]
+RECURSIVE DropAll(_, _, _)
+DropAll(e, s, ks) == IF ks = {} THEN e ELSE LET k == CHOOSE x \in ks : TRUE IN DropAll(DropEntry(e, s, k), s, ks \ {k})
 
 \* ---- WriteMulti(b): b is a function from a non-empty set of keys to non-empty value sequences
 WLoad1On(t, r) ==
@@ -150,24 +164,64 @@ WReserve(t) ==
   /\ th[t].pc = "w_reserve"
   /\ size' = size + th[t].added
   /\ Step(t, [th[t] EXCEPT !.pc = "w_store", !.todo = DOMAIN th[t].b])
-  /\ UNCHANGED <<ring, hotId, snapshotSize, snapObjSize, snapshotting, amap, lost, strayed>>
-\* store.write(k, v): entry.add / newEntryValues.  vtype is the type of the values the entry holds.
-Conflicts(e, vs) == LET vt == IF e = <<>> THEN vs[1].ty ELSE e[1].ty IN \E i \in 1..Len(vs) : vs[i].ty # vt
-WStore(t, k) ==
+  /\ UNCHANGED <<ring, hotId, snapshotSize, snapObjSize, snapshotting, amap, lost, strayed, ent>>
+\* store.write(k, v) = partition.write: (1) look the entry up under the partition read lock; (2a) found: entry.add on that
+\* pointer -- the entry may have left the map meanwhile (DeleteRange emptied/removed it, the store was reset): the values then
+\* land in an orphan; (2b) not found: under the partition write lock look again and add, or create it (newEntryValues).
+Mixed(vs, vt) == \E i \in 1..Len(vs) : vs[i].ty # vt
+WLookup(t, k) ==
   /\ th[t].pc = "w_store" /\ k \in th[t].todo
   /\ LET s == th[t].cap
-         e == ring[s][k]
+     IN IF Present(s, k)
+        THEN Step(t, [th[t] EXCEPT !.pc = "w_add", !.k = k, !.egen = ent.gen[s][k], !.etype = ent.vt[s][k]])
+        ELSE Step(t, [th[t] EXCEPT !.pc = "w_slow", !.k = k])
+  /\ Rest0
+\* outcome of one key: r is the thread record after the key is done
+FinKey(r) == LET r1 == [r EXCEPT !.todo = @ \ {r.k}, !.k = "", !.pc = "w_store"]
+             IN IF r1.todo = {} THEN Done([r1 EXCEPT !.err = IF r1.conf = {} THEN "ok" ELSE "conflict"]) ELSE r1
+\* add vs to the entry mapped at (s, k) (it exists)
+AddMapped(t, s, k, vs) ==
+  IF Mixed(vs, ent.vt[s][k])
+  THEN /\ size' = size - Bytes(vs)
+       /\ Step(t, FinKey([th[t] EXCEPT !.conf = @ \cup {k}]))
+       /\ UNCHANGED <<ring, amap, ent>>
+  ELSE /\ ring' = [ring EXCEPT ![s][k] = @ \o vs]
+       /\ amap' = [amap EXCEPT ![s][k] = Override(@, vs)]
+       /\ ent' = [ent EXCEPT !.glitched = @ \/ DelInProgress(s, k)]
+       /\ Step(t, FinKey([th[t] EXCEPT !.stored = @ \cup {k}]))
+       /\ UNCHANGED size
+WAdd(t) ==
+  /\ th[t].pc = "w_add"
+  /\ LET s == th[t].cap
+         k == th[t].k
          vs == th[t].b[k]
-         rest == th[t].todo \ {k}
-         fin(r) == IF rest = {} THEN Done([r EXCEPT !.err = IF r.conf = {} THEN "ok" ELSE "conflict"]) ELSE r
-     IN IF Conflicts(e, vs)
+     IN IF Present(s, k) /\ ent.gen[s][k] = th[t].egen
+        THEN AddMapped(t, s, k, vs)
+        ELSE IF Mixed(vs, th[t].etype)
         THEN /\ size' = size - Bytes(vs)
-             /\ Step(t, fin([th[t] EXCEPT !.todo = rest, !.conf = @ \cup {k}]))
-             /\ UNCHANGED <<ring, amap>>
-        ELSE /\ ring' = [ring EXCEPT ![s][k] = e \o vs]
+             /\ Step(t, FinKey([th[t] EXCEPT !.conf = @ \cup {k}]))
+             /\ UNCHANGED <<ring, amap, ent>>
+        ELSE \* orphan: WriteMulti reports success, nothing is held, the reserved bytes stay in `size`
+             /\ ent' = [ent EXCEPT !.glitched = TRUE]
+             /\ Step(t, FinKey([th[t] EXCEPT !.stored = @ \cup {k}]))
+             /\ UNCHANGED <<ring, amap, size>>
+  /\ UNCHANGED <<hotId, snapshotSize, snapObjSize, snapshotting, lost, strayed>>
+WSlow(t) ==
+  /\ th[t].pc = "w_slow"
+  /\ LET s == th[t].cap
+         k == th[t].k
+         vs == th[t].b[k]
+     IN IF Present(s, k)
+        THEN AddMapped(t, s, k, vs)
+        ELSE IF Mixed(vs, vs[1].ty)
+        THEN /\ size' = size - Bytes(vs)
+             /\ Step(t, FinKey([th[t] EXCEPT !.conf = @ \cup {k}]))
+             /\ UNCHANGED <<ring, amap, ent>>
+        ELSE /\ ring' = [ring EXCEPT ![s][k] = vs]
              /\ amap' = [amap EXCEPT ![s][k] = Override(@, vs)]
-             /\ size' = IF e = <<>> THEN size + KeyLen(k) ELSE size
-             /\ Step(t, fin([th[t] EXCEPT !.todo = rest, !.stored = @ \cup {k}]))
+             /\ ent' = [ent EXCEPT !.vt[s][k] = vs[1].ty]
+             /\ size' = size + KeyLen(k)
+             /\ Step(t, FinKey([th[t] EXCEPT !.stored = @ \cup {k}]))
   /\ UNCHANGED <<hotId, snapshotSize, snapObjSize, snapshotting, lost, strayed>>
 
 \* ---- Snapshot(): one critical section under c.mu, but the counters are atomics that writers update without c.mu:
@@ -184,7 +238,7 @@ SSnapOn(t, r) ==
           /\ IF snapObjSize # 0
              THEN \* a prior snapshot failed: hand it out again, nothing moves
                   /\ Step(t, Done([r EXCEPT !.err = "ok"]))
-                  /\ UNCHANGED <<ring, hotId, size, snapshotSize, snapObjSize, amap, lost, strayed>>
+                  /\ UNCHANGED <<ring, hotId, size, snapshotSize, snapObjSize, amap, lost, strayed, ent>>
              ELSE \* swap stores; everything accounted so far moves to snapshotSize
                   /\ Step(t, [r EXCEPT !.pc = "s_zero"])
                   /\ hotId' = snapId
@@ -192,12 +246,13 @@ SSnapOn(t, r) ==
                   /\ snapObjSize' = size + snapshotSize
                   /\ lost' = [hot |-> 0, snap |-> lost.hot + lost.snap]
                   /\ strayed' = (strayed \/ MidWrite)
-                  /\ UNCHANGED <<ring, size, amap>>
+                  /\ UNCHANGED <<ring, size, amap, ent>>
 SZero(t) ==
   /\ th[t].pc = "s_zero"
   /\ ring' = [ring EXCEPT ![hotId] = Store0]
   /\ amap' = [amap EXCEPT ![hotId] = AMap0]
   /\ size' = 0
+  /\ ent' = DropAll(ent, hotId, Keys)
   /\ Step(t, Done([th[t] EXCEPT !.err = "ok"]))
   /\ UNCHANGED <<hotId, snapshotSize, snapObjSize, snapshotting, lost, strayed>>
 
@@ -213,6 +268,7 @@ CResetKey(t, k) ==
   /\ th[t].pc = "c_resetting" /\ k \in th[t].todo
   /\ ring' = [ring EXCEPT ![snapId][k] = <<>>]
   /\ amap' = [amap EXCEPT ![snapId][k] = [x \in Times |-> NoVal]]
+  /\ ent' = DropEntry(ent, snapId, k)
   /\ Step(t, [th[t] EXCEPT !.todo = @ \ {k}, !.pc = IF th[t].todo = {k} THEN "c_finish" ELSE "c_resetting"])
   /\ UNCHANGED <<hotId, size, snapshotSize, snapObjSize, snapshotting, lost, strayed>>
 CFinish(t) ==
@@ -222,34 +278,44 @@ CFinish(t) ==
   /\ IF th[t].succ
      THEN /\ snapObjSize' = 0 /\ snapshotSize' = 0 /\ lost' = [lost EXCEPT !.snap = 0]
      ELSE UNCHANGED <<snapObjSize, snapshotSize, lost>>
-  /\ UNCHANGED <<ring, hotId, size, amap, strayed>>
+  /\ UNCHANGED <<ring, hotId, size, amap, strayed, ent>>
 
-\* ---- DeleteRange(ks, lo, hi) / Delete(ks) (full = the MinInt64..MaxInt64 fast path): hot store only
-RECURSIVE DelKeys(_, _, _, _, _)
-\* returns [st |-> hot store, am |-> hot amap, dec |-> bytes given back]
-DelKeys(ks, lo, hi, full, acc) ==
-  IF ks = {} THEN acc
-  ELSE LET k == CHOOSE x \in ks : TRUE
-           e == acc.st[k]
-           f == Exclude(Dedup(e), lo, hi)
-       IN IF e = <<>> THEN DelKeys(ks \ {k}, lo, hi, full, acc)
-          ELSE IF full \/ f = <<>>
-          THEN DelKeys(ks \ {k}, lo, hi, full,
-                       [st |-> [acc.st EXCEPT ![k] = <<>>],
-                        am |-> [acc.am EXCEPT ![k] = IF full THEN [t \in Times |-> NoVal]
-                                                       ELSE [t \in Times |-> IF t >= lo /\ t <= hi THEN NoVal ELSE @[t]]],
-                        dec |-> acc.dec + Bytes(e) + KeyLen(k)])
-          ELSE DelKeys(ks \ {k}, lo, hi, full,
-                       [st |-> [acc.st EXCEPT ![k] = f],
-                        am |-> [acc.am EXCEPT ![k] = [t \in Times |-> IF t >= lo /\ t <= hi THEN NoVal ELSE @[t]]],
-                        dec |-> acc.dec + Bytes(e) - Bytes(f)])
+\* ---- DeleteRange(ks, lo, hi) / Delete(ks) (full = the MinInt64..MaxInt64 fast path): hot store only, c.mu held throughout;
+\*      per key (in slice order = key order): e := entry(k), origSize := e.size() / e.filter(lo, hi) / count = 0 ? remove and
+\*      give back origSize + len(k) : give back origSize - e.size().  The fast path skips the filter and removes.
+MinKey(S) == CHOOSE k \in S : \A j \in S : KeyIdx(k) <= KeyIdx(j)
 DDeleteOn(t, r) ==
   /\ r.pc = "d_del" /\ ~SnapLocked
-  /\ LET d == DelKeys(r.ks, r.lo, r.hi, r.full, [st |-> ring[hotId], am |-> amap[hotId], dec |-> 0])
-     IN /\ ring' = [ring EXCEPT ![hotId] = d.st]
-        /\ amap' = [amap EXCEPT ![hotId] = d.am]
-        /\ size' = size - d.dec
-  /\ Step(t, Done([r EXCEPT !.err = "ok"]))
+  /\ Step(t, [r EXCEPT !.pc = "d_next", !.todo = r.ks])
+  /\ Rest0
+DNext(t) ==
+  /\ th[t].pc = "d_next"
+  /\ IF th[t].todo = {}
+     THEN Step(t, Done([th[t] EXCEPT !.err = "ok"]))
+     ELSE LET k == MinKey(th[t].todo)
+          IN IF ~Present(hotId, k)
+             THEN Step(t, [th[t] EXCEPT !.todo = @ \ {k}])
+             ELSE Step(t, [th[t] EXCEPT !.k = k, !.seen = Bytes(ring[hotId][k]), !.pc = IF th[t].full THEN "d_check" ELSE "d_filter"])
+  /\ Rest0
+DFilter(t) ==
+  /\ th[t].pc = "d_filter"
+  /\ LET k == th[t].k IN
+     /\ ring' = [ring EXCEPT ![hotId][k] = Exclude(Dedup(@), th[t].lo, th[t].hi)]
+     /\ amap' = [amap EXCEPT ![hotId][k] = [x \in Times |-> IF x >= th[t].lo /\ x <= th[t].hi THEN NoVal ELSE @[x]]]
+  /\ Step(t, [th[t] EXCEPT !.pc = "d_check"])
+  /\ UNCHANGED <<hotId, size, snapshotSize, snapObjSize, snapshotting, lost, strayed, ent>>
+DCheck(t) ==
+  /\ th[t].pc = "d_check"
+  /\ LET k == th[t].k
+         e == ring[hotId][k]
+     IN IF th[t].full \/ e = <<>>
+        THEN /\ ring' = [ring EXCEPT ![hotId][k] = <<>>]
+             /\ amap' = [amap EXCEPT ![hotId][k] = [x \in Times |-> NoVal]]
+             /\ ent' = DropEntry(ent, hotId, k)
+             /\ size' = size - (th[t].seen + KeyLen(k))
+        ELSE /\ size' = size - (th[t].seen - Bytes(e))
+             /\ UNCHANGED <<ring, amap, ent>>
+  /\ Step(t, [th[t] EXCEPT !.pc = "d_next", !.todo = @ \ {th[t].k}, !.k = ""])
   /\ UNCHANGED <<hotId, snapshotSize, snapObjSize, snapshotting, lost, strayed>>
 
 \* ---- Values(k): (1) entry.deduplicate() of the hot and the snapshot entry in place -- no size refund: `lost` --
@@ -262,7 +328,7 @@ RDedupOn(t, r) ==
      IN /\ ring' = [ring EXCEPT ![hotId][k] = Dedup(h), ![snapId][k] = Dedup(s)]
         /\ lost' = [hot |-> lost.hot + Bytes(h) - Bytes(Dedup(h)), snap |-> lost.snap + Bytes(s) - Bytes(Dedup(s))]
   /\ Step(t, [r EXCEPT !.pc = "r_copy"])
-  /\ UNCHANGED <<hotId, size, snapshotSize, snapObjSize, snapshotting, amap, strayed>>
+  /\ UNCHANGED <<hotId, size, snapshotSize, snapObjSize, snapshotting, amap, strayed, ent>>
 RCopy(t) ==
   /\ th[t].pc = "r_copy"
   /\ Step(t, Done([th[t] EXCEPT !.err = "ok", !.vals = Pairs(ImplRead(th[t].k))]))
@@ -295,8 +361,8 @@ Start(t, r) == /\ CanStart(t)
                /\ IF Fused THEN FirstOn(t, r) ELSE (Step(t, r) /\ Rest0)
 
 \* any internal step of thread t (used as the linearization steps of TraceCache)
-Internal(t) == \/ WLoad1(t) \/ WCheck(t) \/ WCapture(t) \/ WReserve(t) \/ (\E k \in Keys : WStore(t, k))
-               \/ SSnap(t) \/ SZero(t) \/ CReset(t) \/ (\E k \in Keys : CResetKey(t, k)) \/ CFinish(t) \/ DDelete(t) \/ RDedup(t) \/ RCopy(t) \/ ZLoad1(t) \/ ZLoad2(t)
+Internal(t) == \/ WLoad1(t) \/ WCheck(t) \/ WCapture(t) \/ WReserve(t) \/ (\E k \in Keys : WLookup(t, k)) \/ WAdd(t) \/ WSlow(t)
+               \/ SSnap(t) \/ SZero(t) \/ CReset(t) \/ (\E k \in Keys : CResetKey(t, k)) \/ CFinish(t) \/ DDelete(t) \/ DNext(t) \/ DFilter(t) \/ DCheck(t) \/ RDedup(t) \/ RCopy(t) \/ ZLoad1(t) \/ ZLoad2(t)
 Return(t) ==
   /\ th[t].pc = "done"
   /\ Step(t, Idle)
@@ -308,6 +374,7 @@ CoreInit ==
   /\ th = [t \in Threads |-> Idle]
   /\ amap = [s \in {1, 2} |-> AMap0]
   /\ lost = [hot |-> 0, snap |-> 0] /\ strayed = FALSE
+  /\ ent = Ent0
 
 \* ------------------------------------------------------------------ model checking / history generation
 HotKeys == {k \in Keys : ring[hotId][k] # <<>>}
@@ -344,7 +411,7 @@ Bump(f) == cnt' = [cnt EXCEPT ![f] = @ + 1, !.ops = @ + 1]
 \*  for writes keep them at about 40% of the operations)
 Pick(S) == IF RandomPick THEN {RandomElement(S)} ELSE S
 BatchChoices == IF RandomPick THEN {RandomElement(BatchShapes), RandomElement(BatchShapes)} ELSE BatchShapes
-DelArgs == {<<r[1], r[2], FALSE>> : r \in {x \in Ranges : Cardinality(Times) > 1 \/ Sequential}} \cup {<<0, 0, TRUE>>}
+DelArgs == {<<r[1], r[2], FALSE>> : r \in Ranges} \cup {<<0, 0, TRUE>>}
 DoStartWrite == \E t \in Writers : \E g \in BatchChoices :
                   /\ Budget /\ cnt.w < MaxWrites /\ cnt.pw[t] < PerWriter /\ Start(t, NewWrite(Materialize(g, nextId)))
                   /\ cnt' = [cnt EXCEPT !.w = @ + 1, !.ops = @ + 1, !.pw[t] = @ + 1]
@@ -366,13 +433,18 @@ IWLoad1   == \E t \in Threads : WLoad1(t) /\ UNCHANGED aux
 IWCheck   == \E t \in Threads : WCheck(t) /\ UNCHANGED aux
 IWCapture == \E t \in Threads : WCapture(t) /\ UNCHANGED aux
 IWReserve == \E t \in Threads : WReserve(t) /\ UNCHANGED aux
-IWStore   == \E t \in Threads : \E k \in Keys : WStore(t, k) /\ UNCHANGED aux
+IWLookup  == \E t \in Threads : \E k \in Keys : WLookup(t, k) /\ UNCHANGED aux
+IWAdd     == \E t \in Threads : WAdd(t) /\ UNCHANGED aux
+IWSlow    == \E t \in Threads : WSlow(t) /\ UNCHANGED aux
 ISSnap    == \E t \in Threads : SSnap(t) /\ UNCHANGED aux
 ISZero    == \E t \in Threads : SZero(t) /\ UNCHANGED aux
 ICReset   == \E t \in Threads : CReset(t) /\ UNCHANGED aux
 ICResetK  == \E t \in Threads : \E k \in Keys : CResetKey(t, k) /\ UNCHANGED aux
 ICFinish  == \E t \in Threads : CFinish(t) /\ UNCHANGED aux
 IDDelete  == \E t \in Threads : DDelete(t) /\ UNCHANGED aux
+IDNext    == \E t \in Threads : DNext(t) /\ UNCHANGED aux
+IDFilter  == \E t \in Threads : DFilter(t) /\ UNCHANGED aux
+IDCheck   == \E t \in Threads : DCheck(t) /\ UNCHANGED aux
 IRDedup   == \E t \in Threads : RDedup(t) /\ UNCHANGED aux
 IRCopy    == \E t \in Threads : RCopy(t) /\ UNCHANGED aux
 IZLoad1   == \E t \in Threads : ZLoad1(t) /\ UNCHANGED aux
@@ -389,7 +461,7 @@ DoReturn == \E t \in Threads :
               /\ UNCHANGED <<cnt, nextId>>
 
 Next == \/ DoStartWrite \/ DoStartSnapshot \/ DoStartClear \/ DoStartDelete \/ DoStartRead \/ DoStartSize
-        \/ IWLoad1 \/ IWCheck \/ IWCapture \/ IWReserve \/ IWStore \/ ISSnap \/ ISZero \/ ICReset \/ ICResetK \/ ICFinish \/ IDDelete
+        \/ IWLoad1 \/ IWCheck \/ IWCapture \/ IWReserve \/ IWLookup \/ IWAdd \/ IWSlow \/ ISSnap \/ ISZero \/ ICReset \/ ICResetK \/ ICFinish \/ IDDelete \/ IDNext \/ IDFilter \/ IDCheck
         \/ IRDedup \/ IRCopy \/ IZLoad1 \/ IZLoad2 \/ DoReturn
 Spec == Init /\ [][Next]_vars
 
@@ -397,15 +469,20 @@ Spec == Init /\ [][Next]_vars
 \* reading = de-duplicated union of snapshot and hot values, hot winning (for every key, in every reachable state)
 ValuesContract == \A k \in Keys : ImplRead(k) = ContractRead(k)
 \* no write between increaseSize and its last store.write, no ClearSnapshot between its two halves
-Quiescent == \A t \in Threads : th[t].pc \notin {"w_store", "s_zero", "c_resetting", "c_finish"}
+Quiescent == \A t \in Threads : th[t].pc \notin {"w_store", "w_add", "w_slow", "s_zero", "c_resetting", "c_finish",
+                                                   "d_next", "d_filter", "d_check"}
 \* the counters equal the bytes actually held, up to the two named deviations
-SizeAccounting == (Quiescent /\ ~strayed) => Reported = Accounted + lost.hot + lost.snap
+SizeAccounting == (Quiescent /\ ~strayed /\ ~ent.glitched) => Reported = Accounted + lost.hot + lost.snap
+\* the map holds an entry exactly for the keys that have values (an empty entry exists only inside a DeleteRange)
+PresenceOK == \A s \in {1, 2} : \A k \in Keys : (Present(s, k) = (ring[s][k] # <<>>)) \/ DelInProgress(s, k)
 \* the strict contract of C09 (expected to FAIL on the model: leads F8 / stray write; used by the *_lead configs)
 StrictSize == Quiescent => Reported = Accounted
-StrictSizeNoStray == (Quiescent /\ ~strayed) => Reported = Accounted
-StrictSizeNoDedup == (Quiescent /\ lost.hot = 0 /\ lost.snap = 0) => Reported = Accounted
+StrictSizeNoStray == (Quiescent /\ ~strayed /\ ~ent.glitched) => Reported = Accounted
+\* lead: the write/DeleteRange entry race alone breaks the strict contract
+StrictSizeNoDedupNoStray == (Quiescent /\ ~strayed /\ lost.hot = 0 /\ lost.snap = 0) => Reported = Accounted
+StrictSizeNoDedup == (Quiescent /\ ~ent.glitched /\ lost.hot = 0 /\ lost.snap = 0) => Reported = Accounted
 NoStray == ~strayed
-CountersNonNegative == ~strayed => (size >= 0 /\ snapshotSize >= 0)
+CountersNonNegative == (~strayed /\ ~ent.glitched) => (size >= 0 /\ snapshotSize >= 0)
 \* every entry holds values of one type; no empty batch is ever stored
 EntriesTyped == \A s \in {1, 2} : \A k \in Keys : \A i \in 1..Len(ring[s][k]) : ring[s][k][i].ty = ring[s][k][1].ty
 \* a finished write: limit rejection stored nothing; otherwise every key was stored or (conflict) dropped alone
@@ -415,8 +492,8 @@ WriteOutcome == \A t \in Threads : (th[t].pc = "done" /\ th[t].op = "write") =>
                        /\ (th[t].err = "conflict") = (th[t].conf # {})
 \* the same two statements on the last step of a write (needed when Fused removes the "done" state)
 WriteOutcomeStep ==
-  [][\A t \in Threads : (th[t].pc = "w_store" /\ th'[t].pc \in {"idle", "done"}) =>
-        \E k \in th[t].todo : th[t].todo = {k} /\ th[t].stored \cup th[t].conf \cup {k} = DOMAIN th[t].b]_vars
+  [][\A t \in Threads : (th[t].pc \in {"w_add", "w_slow"} /\ th'[t].pc \in {"idle", "done"}) =>
+        (th[t].todo = {th[t].k} /\ th[t].stored \cup th[t].conf \cup {th[t].k} = DOMAIN th[t].b)]_vars
 LimitStep ==
   [][\A t \in Threads : (th[t].pc = "w_check" /\ th'[t].pc # "w_check") =>
         LET n == (IF SplitLoads THEN th[t].seen ELSE size) + snapshotSize + th[t].added
@@ -427,23 +504,23 @@ RejectedStoresNothing ==
         (ring' = ring /\ size' = size /\ snapshotSize' = snapshotSize /\ amap' = amap)]_vars
 \* a type conflict on k leaves every entry untouched and gives back exactly the bytes of that key's values
 TypeConflictOneKey ==
-  [][\A t \in Threads : (th[t].pc = "w_store" /\ th'[t] # th[t]) =>
-        \E k \in th[t].todo :
-          LET e == ring[th[t].cap][k]
-              vs == th[t].b[k]
-          IN IF Conflicts(e, vs)
-             THEN ring' = ring /\ amap' = amap /\ size' = size - Bytes(vs)
-             ELSE /\ ring' = [ring EXCEPT ![th[t].cap][k] = e \o vs]
-                  /\ size' = size + (IF e = <<>> THEN KeyLen(k) ELSE 0)]_vars
+  [][\A t \in Threads : (th[t].pc \in {"w_add", "w_slow"} /\ th'[t] # th[t]) =>
+        LET k == th[t].k
+            c == th[t].cap
+            vs == th[t].b[k]
+        IN /\ \A s \in {1, 2} : \A j \in Keys : (s # c \/ j # k) => ring'[s][j] = ring[s][j]     \* no other entry is touched
+           /\ \/ ring' = ring /\ amap' = amap /\ size' = size - Bytes(vs)                        \* conflict: this key only, refunded
+              \/ ring' = ring /\ amap' = amap /\ size' = size /\ ent'.glitched                    \* orphaned (named deviation)
+              \/ ring'[c][k] = ring[c][k] \o vs /\ size' = size + (IF Present(c, k) THEN 0 ELSE KeyLen(k))]_vars
 \* the limit test is check-then-reserve: the guarantee is relative to the size the write observed (two racing writes
 \* may both pass and together exceed the limit -- allowed, the API cannot do better)
 LimitAsObserved == \A t \in Threads : th[t].op = "write" =>
-                     /\ (th[t].pc \in {"w_capture", "w_reserve", "w_store"} \/ (th[t].pc = "done" /\ th[t].err # "limit"))
+                     /\ (th[t].pc \in {"w_capture", "w_reserve", "w_store", "w_add", "w_slow"} \/ (th[t].pc = "done" /\ th[t].err # "limit"))
                           => (Limit = 0 \/ (th[t].n >= 0 /\ th[t].n <= Limit))
                      /\ (th[t].pc = "done" /\ th[t].err = "limit") => (Limit > 0 /\ (th[t].n > Limit \/ th[t].n < 0))
 
 \* generation of sequential histories: two histories are merged only if they also agree on every result returned so far
-ViewGen == <<ring, hotId, size, snapshotSize, snapObjSize, snapshotting, th, amap, lost, strayed, cnt, nextId,
+ViewGen == <<ring, hotId, size, snapshotSize, snapObjSize, snapshotting, th, amap, lost, strayed, ent, cnt, nextId,
              [i \in DOMAIN hist |-> <<hist[i].a, hist[i].err, hist[i].n, hist[i].vals>>]>>
-View == <<ring, hotId, size, snapshotSize, snapObjSize, snapshotting, th, amap, lost, strayed, cnt, nextId>>
+View == <<ring, hotId, size, snapshotSize, snapObjSize, snapshotting, th, amap, lost, strayed, ent, cnt, nextId>>
 =============================================================================
